@@ -1,6 +1,1307 @@
-//! C20 — not built yet.
+//! C20 — zone files load to exactly the records they denote.
+//!
+//! Case line:  `zone <flag> <origin|-> <text-hex> [<expected-origin> <expected-records>]`
+//!   flag `m` : compare with the Lean model if the text is inside the modelled fragment (decided
+//!              from the text alone, see `model_applicable`);
+//!   flag `e` : as `m`, but backslash-digit escapes are allowed (the author of the line asserts
+//!              that no escape puts a character >= 128 into a *name*; true of the printer's output,
+//!              whose escapes sit in quoted strings);
+//!   flag `i` : implementation-vs-oracle only.
+//!   expected-records : `-` no expectation (malformed stream: only "Ok or Err, never panic/hang"),
+//!              `0` the empty set, else `rec|rec|…` with rec = `owner/type/class/ttl/rdata`,
+//!              names lower-cased (DNS names are case-insensitive).
+//!
+//! Implementation output: `ok <origin> <rrset>…` (rrsets sorted), `err`, `panic …`, `hang`.
+use std::collections::BTreeMap;
+use std::sync::mpsc;
+use std::time::Duration;
+
+use hickory_proto::rr::{Name, RData, Record, RecordSet, RrKey};
+use hickory_proto::serialize::txt::{ParseError, Parser};
+
 use crate::common::*;
 
-pub fn run(_o: &Opts, rec: &mut Recorder) {
-    rec.rule = "stub".into();
+// ------------------------------------------------------------------------------------------------
+// canonical dump of the implementation's result
+
+fn lower_name_tok(n: &Name) -> String {
+    name_tok(&n.to_lowercase())
+}
+
+fn rdata_tok(d: &RData, nm: &dyn Fn(&Name) -> String) -> String {
+    match d {
+        RData::A(a) => format!("A,{}", hex(&a.0.octets())),
+        RData::AAAA(a) => format!("AAAA,{}", hex(&a.0.octets())),
+        RData::NS(n) => format!("N,{}", nm(&n.0)),
+        RData::CNAME(n) => format!("N,{}", nm(&n.0)),
+        RData::PTR(n) => format!("N,{}", nm(&n.0)),
+        RData::ANAME(n) => format!("N,{}", nm(&n.0)),
+        RData::MX(m) => format!("MX,{},{}", m.preference, nm(&m.exchange)),
+        RData::SOA(s) => format!(
+            "SOA,{},{},{},{},{},{},{}",
+            nm(&s.mname),
+            nm(&s.rname),
+            s.serial,
+            s.refresh,
+            s.retry,
+            s.expire,
+            s.minimum
+        ),
+        RData::SRV(s) => format!("SRV,{},{},{},{}", s.priority, s.weight, s.port, nm(&s.target)),
+        RData::TXT(t) => {
+            let mut v = vec!["TXT".to_string()];
+            v.extend(t.txt_data.iter().map(|s| hex(s)));
+            v.join(",")
+        }
+        RData::HINFO(h) => format!("HINFO,{},{}", hex(&h.cpu), hex(&h.os)),
+        RData::CAA(c) => format!("CAA,{},{},{},{}", c.issuer_critical as u8, c.reserved_flags, hex(c.tag.as_bytes()), hex(&c.value)),
+        other => format!("X{},{}", u16::from(other.record_type()), hex(format!("{other}").as_bytes())),
+    }
+}
+
+fn rec_tok(r: &Record) -> String {
+    format!("{}/{}/{}/{}", name_tok(&r.name), u16::from(r.dns_class), r.ttl, rdata_tok(&r.data, &name_tok))
+}
+
+fn rec_norm(r: &Record) -> String {
+    format!(
+        "{}/{}/{}/{}/{}",
+        lower_name_tok(&r.name),
+        u16::from(r.record_type()),
+        u16::from(r.dns_class),
+        r.ttl,
+        rdata_tok(&r.data, &lower_name_tok)
+    )
+}
+
+fn dump(origin: &Name, map: &BTreeMap<RrKey, RecordSet>) -> (String, Vec<String>, usize, String) {
+    let mut sets = vec![];
+    let mut norm = vec![];
+    let mut nrec = 0;
+    for rs in map.values() {
+        let recs: Vec<String> = rs.records_without_rrsigs().map(rec_tok).collect();
+        nrec += recs.len();
+        norm.extend(rs.records_without_rrsigs().map(rec_norm));
+        sets.push(format!(
+            "{}/{}/{}/{}={}",
+            name_tok(rs.name()),
+            u16::from(rs.record_type()),
+            u16::from(rs.dns_class()),
+            rs.ttl(),
+            recs.join(";")
+        ));
+    }
+    sets.sort();
+    norm.sort();
+    let mut out = vec!["ok".to_string(), name_tok(origin)];
+    out.extend(sets);
+    (out.join(" "), norm, nrec, lower_name_tok(origin))
+}
+
+// ------------------------------------------------------------------------------------------------
+// which texts have a model side
+
+const UNMODELLED_TYPES: &[&str] = &[
+    "cert", "csync", "ds", "https", "naptr", "openpgpkey", "smimea", "sshfp", "svcb", "tlsa",
+];
+
+fn has_backslash_digit(t: &str) -> bool {
+    t.as_bytes().windows(2).any(|w| w[0] == b'\\' && w[1].is_ascii_digit())
+}
+
+/// The Lean model covers ASCII texts in which no label reaches IDNA with an `xn--` prefix or a
+/// non-ASCII character, no unmodelled record type is parsed and `$INCLUDE` names no absolute path.
+/// This is a conservative *textual* over-approximation of "outside the model".
+fn model_applicable(flag: &str, text: &str) -> bool {
+    if flag == "i" || !text.is_ascii() {
+        return false;
+    }
+    let low = text.to_ascii_lowercase();
+    if low.contains("xn--") {
+        return false;
+    }
+    if flag != "e" && has_backslash_digit(text) {
+        return false;
+    }
+    if low.contains("$include") && text.contains('/') {
+        return false;
+    }
+    !low.split(|c: char| !c.is_ascii_alphanumeric()).any(|w| UNMODELLED_TYPES.contains(&w))
+}
+
+/// `$INCLUDE` of an absolute path reads the file system: only a path that cannot exist is let through.
+fn include_is_safe(text: &str) -> bool {
+    if !text.to_ascii_uppercase().contains("INCLUDE") {
+        return true;
+    }
+    let b = text.as_bytes();
+    (0..b.len()).filter(|&i| b[i] == b'/').all(|i| text[i..].starts_with("/nonexistent-c20"))
+}
+
+// ------------------------------------------------------------------------------------------------
+// known-finding classes (mirrored by decidable predicates in Proofs/C20.lean)
+
+/// What an RFC 1035 §5.1 reader sees in the text: comments (`;` to end of line) and quoted strings
+/// with backslash escapes.  Mirrored by `Spec.MasterFile.scan` in Lean.
+#[derive(Default, Clone, Copy)]
+struct Scan {
+    /// a quoted string (inside parentheses or not) contains `\DDD` with DDD >= 10
+    decimal_escape: bool,
+}
+
+fn scan(t: &[u8]) -> Scan {
+    #[derive(PartialEq)]
+    enum M {
+        Normal,
+        Comment,
+        Quote,
+    }
+    let mut s = Scan::default();
+    let (mut mode, mut i) = (M::Normal, 0);
+    while i < t.len() {
+        let c = t[i];
+        match mode {
+            M::Normal => match c {
+                b';' => mode = M::Comment,
+                b'"' => mode = M::Quote,
+                b'\\' => i += 1,
+                _ => {}
+            },
+            M::Comment => {
+                if c == b'\n' {
+                    mode = M::Normal
+                }
+            }
+            M::Quote => match c {
+                b'"' => mode = M::Normal,
+                b'\\' => {
+                    if i + 3 < t.len() && t[i + 1..i + 4].iter().all(u8::is_ascii_digit) {
+                        if !(t[i + 1] == b'0' && t[i + 2] == b'0') {
+                            s.decimal_escape = true;
+                        }
+                        i += 3;
+                    } else {
+                        i += 1;
+                    }
+                }
+                _ => {}
+            },
+        }
+        i += 1;
+    }
+    s
+}
+
+/// can `Label::from_utf8` produce this label at all?  (letters, digits, `-`, `.`, not starting
+/// with `-`; or a `_`-label of letters, digits, `-`, `_`, `.`; or `*`)
+fn label_loadable(l: &[u8]) -> bool {
+    if l == b"*" {
+        return true;
+    }
+    if l.first() == Some(&b'_') {
+        return l.iter().all(|c| c.is_ascii_alphanumeric() || matches!(c, b'-' | b'_' | b'.'));
+    }
+    l.first() != Some(&b'-') && l.iter().all(|c| c.is_ascii_alphanumeric() || matches!(c, b'-' | b'.'))
+}
+
+fn expected_labels(expected: &str) -> Vec<Vec<u8>> {
+    // every name token in an expected record is `F:<hex>.<hex>…`
+    expected
+        .split(|c| c == '/' || c == ',' || c == '|')
+        .filter(|t| t.starts_with("F:"))
+        .filter_map(|t| parse_labels(&t[2..]))
+        .flatten()
+        .collect()
+}
+
+/// Known-finding classes, narrowest first (each mirrored by a decidable predicate in
+/// Spec/MasterFile.lean): a stated name has a label with `;` (`nameHasSemicolon`), a label hickory
+/// cannot produce (`nameNotLdh`), a quoted string has `\DDD` with DDD >= 10 (`scan`).
+fn classify(text: &str, expected: &str) -> &'static str {
+    let labels = expected_labels(expected);
+    if labels.iter().any(|l| l.contains(&b';')) {
+        "escaped-semicolon-in-item"
+    } else if labels.iter().any(|l| !label_loadable(l)) {
+        "name-label-not-ldh"
+    } else if scan(text.as_bytes()).decimal_escape {
+        "decimal-escape-arithmetic"
+    } else {
+        ""
+    }
+}
+
+// ------------------------------------------------------------------------------------------------
+// running the implementation
+
+enum Ran {
+    Ok(String, Vec<String>, usize, String),
+    Err(String),
+    Panic(String),
+    Hang,
+}
+
+fn err_kind(e: &ParseError) -> String {
+    let s = format!("{e:?}");
+    s.split(|c: char| !c.is_ascii_alphanumeric()).next().unwrap_or("?").to_string()
+}
+
+fn run_impl(text: String, origin: Option<Name>) -> Ran {
+    let (tx, rx) = mpsc::channel();
+    let _ = std::thread::Builder::new().stack_size(16 << 20).spawn(move || {
+        let r = catch(|| match Parser::new(text, None, origin).parse() {
+            Ok((o, m)) => {
+                let (a, b, c, d) = dump(&o, &m);
+                Ran::Ok(a, b, c, d)
+            }
+            Err(e) => Ran::Err(err_kind(&e)),
+        });
+        let _ = tx.send(match r {
+            Ok(x) => x,
+            Err(p) => Ran::Panic(p),
+        });
+    });
+    // watchdog: a hang is reported, the stuck thread is abandoned
+    rx.recv_timeout(Duration::from_secs(30)).unwrap_or(Ran::Hang)
+}
+
+pub fn exec(line: &str, rec: &mut Recorder) {
+    let t: Vec<&str> = line.split_whitespace().collect();
+    if t.len() < 4 || t[0] != "zone" {
+        rec.stat("skipped.unparsable-case");
+        return;
+    }
+    let flag = t[1];
+    let origin = if t[2] == "-" {
+        None
+    } else {
+        match parse_name(t[2]) {
+            Some(n) => Some(n),
+            None => return rec.stat("skipped.unparsable-case"),
+        }
+    };
+    let Some(bytes) = unhex(t[3]) else { return rec.stat("skipped.unparsable-case") };
+    let Ok(text) = String::from_utf8(bytes) else { return rec.stat("skipped.not-utf8") };
+    if !include_is_safe(&text) {
+        return rec.stat("skipped.include-of-existing-path");
+    }
+    let exp_origin = t.get(4).copied().unwrap_or("-");
+    let expected = t.get(5).copied().unwrap_or("-");
+
+    let ran = run_impl(text.clone(), origin);
+    let has_model = model_applicable(flag, &text);
+    let (out, norm, nrec) = match &ran {
+        Ran::Ok(a, b, c, _) => (a.clone(), Some(b.clone()), *c),
+        Ran::Err(k) => {
+            rec.stat(&format!("err.{k}"));
+            ("err".to_string(), None, 0)
+        }
+        Ran::Panic(p) => (format!("panic {}", p.replace('\n', " ")), None, 0),
+        Ran::Hang => ("hang".to_string(), None, 0),
+    };
+    let bad = matches!(ran, Ran::Panic(_) | Ran::Hang);
+    let idx = if has_model || bad {
+        rec.case(line.to_string(), out.clone())
+    } else {
+        rec.impl_only += 1;
+        rec.case(line.to_string(), "~".into())
+    };
+    rec.stat(if has_model { "side.model+oracle" } else { "side.oracle-only" });
+    rec.stat(match &ran {
+        Ran::Ok(..) => "outcome.ok",
+        Ran::Err(_) => "outcome.err",
+        Ran::Panic(_) => "outcome.panic",
+        Ran::Hang => "outcome.hang",
+    });
+    rec.stat(&format!(
+        "text.len.{}",
+        match text.len() {
+            0..=63 => "0-63",
+            64..=255 => "64-255",
+            256..=1023 => "256-1023",
+            1024..=4094 => "1024-4094",
+            _ => "4095+",
+        }
+    ));
+    // ---- the property's oracle, on the implementation's answer only
+    match &ran {
+        Ran::Panic(p) => rec.fail(idx, format!("panic: {p}"), ""),
+        Ran::Hang => rec.fail(idx, "hang: no result within 30 s", ""),
+        _ => {}
+    }
+    if expected != "-" && !bad {
+        rec.stat("expect.records");
+        let mut want: Vec<String> = if expected == "0" { vec![] } else { expected.split('|').map(String::from).collect() };
+        want.sort();
+        let class = classify(&text, expected);
+        match &norm {
+            None => rec.fail(idx, "a well-formed zone file was rejected", class),
+            Some(got) => {
+                if *got != want {
+                    let missing = want.iter().filter(|w| !got.contains(w)).count();
+                    let extra = got.iter().filter(|g| !want.contains(g)).count();
+                    rec.fail(
+                        idx,
+                        format!("loaded records differ from the denoted ones ({missing} missing, {extra} unexpected)"),
+                        class,
+                    );
+                } else if exp_origin != "-" && !matches!(&ran, Ran::Ok(_, _, _, o) if o == exp_origin) {
+                    rec.fail(idx, "zone origin differs from the denoted one", class);
+                } else {
+                    rec.stat("expect.met");
+                }
+            }
+        }
+    }
+    rec.stat(&format!("records.{}", match nrec { 0 => "0", 1 => "1", 2..=4 => "2-4", _ => "5+" }));
+    if nrec > 0 || (expected == "-" && text.len() >= 10) {
+        rec.nontrivial(idx);
+    }
+}
+
+// ------------------------------------------------------------------------------------------------
+// generator: record sets
+
+#[derive(Clone, PartialEq, Eq, Debug)]
+struct GName(Vec<Vec<u8>>); // absolute, first label first
+
+#[derive(Clone, Debug)]
+enum GData {
+    A([u8; 4]),
+    Aaaa([u16; 8]),
+    N(GName),
+    Mx(u16, GName),
+    Soa(GName, GName, u32, u32, u32, u32, u32),
+    Srv(u16, u16, u16, GName),
+    Txt(Vec<Vec<u8>>),
+    Hinfo(Vec<u8>, Vec<u8>),
+    Caa(u8, Vec<u8>, Vec<u8>),
+}
+
+#[derive(Clone, Debug)]
+struct GRec {
+    owner: GName,
+    rtype: &'static str,
+    code: u16,
+    class: u16,
+    ttl: u32,
+    data: GData,
+}
+
+fn lower(l: &[u8]) -> Vec<u8> {
+    l.to_ascii_lowercase()
+}
+
+impl GName {
+    fn tok_lower(&self) -> String {
+        format!("F:{}", self.0.iter().map(|l| hex(&lower(l))).collect::<Vec<_>>().join("."))
+    }
+    fn tok(&self) -> String {
+        format!("F:{}", self.0.iter().map(|l| hex(l)).collect::<Vec<_>>().join("."))
+    }
+    fn wire_len(&self) -> usize {
+        self.0.iter().map(|l| l.len() + 1).sum::<usize>() + 1
+    }
+    fn ends_with(&self, o: &GName) -> bool {
+        self.0.len() >= o.0.len()
+            && self.0[self.0.len() - o.0.len()..].iter().zip(&o.0).all(|(a, b)| lower(a) == lower(b))
+    }
+}
+
+impl GData {
+    fn norm(&self) -> String {
+        match self {
+            GData::A(o) => format!("A,{}", hex(o)),
+            GData::Aaaa(g) => {
+                let b: Vec<u8> = g.iter().flat_map(|x| x.to_be_bytes()).collect();
+                format!("AAAA,{}", hex(&b))
+            }
+            GData::N(n) => format!("N,{}", n.tok_lower()),
+            GData::Mx(p, n) => format!("MX,{p},{}", n.tok_lower()),
+            GData::Soa(m, r, a, b, c, d, e) => format!("SOA,{},{},{a},{b},{c},{d},{e}", m.tok_lower(), r.tok_lower()),
+            GData::Srv(p, w, q, n) => format!("SRV,{p},{w},{q},{}", n.tok_lower()),
+            GData::Txt(ss) => {
+                let mut v = vec!["TXT".to_string()];
+                v.extend(ss.iter().map(|s| hex(s)));
+                v.join(",")
+            }
+            GData::Hinfo(c, o) => format!("HINFO,{},{}", hex(c), hex(o)),
+            GData::Caa(f, t, v) => format!("CAA,{},{},{},{}", f >> 7, f & 127, hex(t), hex(v)),
+        }
+    }
+    fn names(&self) -> Vec<&GName> {
+        match self {
+            GData::N(n) | GData::Mx(_, n) | GData::Srv(_, _, _, n) => vec![n],
+            GData::Soa(m, r, ..) => vec![m, r],
+            _ => vec![],
+        }
+    }
+}
+
+impl GRec {
+    fn norm(&self) -> String {
+        format!("{}/{}/{}/{}/{}", self.owner.tok_lower(), self.code, self.class, self.ttl, self.data.norm())
+    }
+}
+
+fn gen_ldh_label(r: &mut Rng) -> Vec<u8> {
+    let n = match r.below(10) {
+        0 => r.range(10, 63),
+        _ => r.range(1, 8),
+    } as usize;
+    let mut l: Vec<u8> = (0..n)
+        .map(|_| *r.pick(b"abcdefghijklmnopqrstuvwxyzABCDEFGHIJKLMNOPQRSTUVWXYZ0123456789--"))
+        .collect();
+    if l[0] == b'-' {
+        l[0] = b'a';
+    }
+    // keep clear of IDNA's punycode path (outside the model and not what this property is about)
+    if l.len() >= 4 && l[..4].eq_ignore_ascii_case(b"xn--") {
+        l[0] = b'y';
+    }
+    l
+}
+
+/// `wild`: arbitrary octets allowed (such names cannot be loaded by hickory: known finding)
+fn gen_label(r: &mut Rng, first: bool, wild: bool) -> Vec<u8> {
+    if wild && r.chance(1, 2) {
+        let n = r.range(1, 6) as usize;
+        return (0..n)
+            .map(|_| match r.below(6) {
+                0 => r.byte(),
+                1 => *r.pick(b" ;()\"\\@$.\t"),
+                2 => *r.pick(b"_+=/:!#%&'*,<>?[]^`{|}~"),
+                _ => *r.pick(b"abcXYZ019-"),
+            })
+            .collect();
+    }
+    match r.below(20) {
+        0 if first => b"*".to_vec(),
+        1 | 2 => {
+            let mut l = gen_ldh_label(r);
+            l.truncate(20);
+            l.insert(0, b'_');
+            if r.chance(1, 3) {
+                l.push(b'_');
+                l.push(b'x');
+            }
+            l
+        }
+        3 => {
+            // a dot inside a label
+            let mut l = gen_ldh_label(r);
+            l.truncate(20);
+            let i = r.below(l.len() as u64 + 1) as usize;
+            l.insert(i, b'.');
+            if l[0] == b'.' && r.chance(1, 2) {
+                l.insert(0, b'a');
+            }
+            l
+        }
+        _ => gen_ldh_label(r),
+    }
+}
+
+fn gen_name_under(r: &mut Rng, base: &GName, wild: bool) -> GName {
+    let k = match r.below(8) {
+        0 => 0,
+        1..=5 => 1,
+        6 => 2,
+        _ => 3,
+    };
+    let mut ls = vec![];
+    for i in 0..k {
+        ls.push(gen_label(r, i == 0, wild));
+    }
+    ls.extend(base.0.iter().cloned());
+    let n = GName(ls);
+    if n.wire_len() > 255 { base.clone() } else { n }
+}
+
+fn gen_abs_name(r: &mut Rng, wild: bool) -> GName {
+    let k = r.range(0, 3);
+    let n = GName((0..k).map(|i| gen_label(r, i == 0, wild)).collect());
+    if n.wire_len() > 255 { GName(vec![b"x".to_vec()]) } else { n }
+}
+
+fn gen_string(r: &mut Rng, clean: bool) -> Vec<u8> {
+    let n = match r.below(12) {
+        0 => 0,
+        1 => r.range(100, 255),
+        _ => r.range(1, 20),
+    } as usize;
+    let style = if clean { r.range(1, 9) } else { r.below(10) };
+    (0..n)
+        .map(|_| match style {
+            0 => r.byte(),                                                   // arbitrary octets
+            1 | 2 => *r.pick(b"abc \"\\;()@$.\t=-_"),                        // special characters
+            3 => *r.pick(b"v=spf1 include:_spf.example.com ~all; k=rsa"),    // realistic TXT
+            _ => *r.pick(b"abcdefghijklmnopqrstuvwxyzABCXYZ0123456789-_.=+/:"), // plain
+        })
+        .collect()
+}
+
+fn gen_ttl(r: &mut Rng) -> u32 {
+    match r.below(12) {
+        0 => 0,
+        1 => u32::MAX,
+        2 => r.next() as u32,
+        3 => *r.pick(&[60u32, 3600, 86400, 604800, 1209600]),
+        _ => r.range(1, 100000) as u32,
+    }
+}
+
+const NAME_TYPES: &[(&str, u16)] = &[("NS", 2), ("CNAME", 5), ("PTR", 12), ("ANAME", 65305)];
+
+fn gen_records(r: &mut Rng, origin: &GName, wild: bool, clean: bool) -> Vec<GRec> {
+    let class = *r.pick(&[1u16, 1, 1, 1, 1, 1, 1, 1, 3, 4]);
+    let nsets = r.range(1, 5);
+    let mut out: Vec<GRec> = vec![];
+    let mut have_soa = false;
+    let mut owners: Vec<GName> = vec![];
+    for _ in 0..nsets {
+        let owner = if !owners.is_empty() && r.chance(1, 3) {
+            r.pick(&owners).clone()
+        } else if r.chance(5, 6) {
+            gen_name_under(r, origin, wild)
+        } else {
+            gen_abs_name(r, wild)
+        };
+        owners.push(owner.clone());
+        let ttl = gen_ttl(r);
+        let tname = |r: &mut Rng| if r.chance(3, 4) { gen_name_under(r, origin, wild) } else { gen_abs_name(r, wild) };
+        let kind = r.below(12);
+        let n = if matches!(kind, 2 | 4) { 1 } else { r.range(1, 3) };
+        for _ in 0..n {
+            let (rtype, code, data): (&'static str, u16, GData) = match kind {
+                0 => ("A", 1, GData::A([r.byte(), r.byte(), r.byte(), r.byte()])),
+                1 => {
+                    let mut g = [0u16; 8];
+                    let style = r.below(4);
+                    for x in g.iter_mut() {
+                        *x = match style {
+                            0 => r.next() as u16,
+                            1 => if r.chance(1, 2) { 0 } else { r.next() as u16 },
+                            2 => 0,
+                            _ => r.below(256) as u16,
+                        };
+                    }
+                    ("AAAA", 28, GData::Aaaa(g))
+                }
+                2 => {
+                    let (t, c) = *r.pick(&[("CNAME", 5u16), ("ANAME", 65305)]);
+                    (t, c, GData::N(tname(r)))
+                }
+                3 => {
+                    let (t, c) = *r.pick(&NAME_TYPES[..1]);
+                    let (t, c) = if r.chance(1, 3) { ("PTR", 12) } else { (t, c) };
+                    (t, c, GData::N(tname(r)))
+                }
+                4 => {
+                    if have_soa {
+                        ("A", 1, GData::A([10, 0, 0, r.byte()]))
+                    } else {
+                        have_soa = true;
+                        let big = |r: &mut Rng| if r.chance(1, 4) { r.next() as u32 } else { r.below(1_000_000) as u32 };
+                        let i31 = |r: &mut Rng| if r.chance(1, 6) { (r.next() as u32) >> 1 } else { r.below(1_000_000) as u32 };
+                        ("SOA", 6, GData::Soa(tname(r), tname(r), big(r), i31(r), i31(r), i31(r), big(r)))
+                    }
+                }
+                5 => ("MX", 15, GData::Mx(if r.chance(1, 5) { r.next() as u16 } else { r.below(100) as u16 }, tname(r))),
+                6 => ("SRV", 33, GData::Srv(r.below(100) as u16, r.next() as u16, r.next() as u16, tname(r))),
+                10 => ("HINFO", 13, GData::Hinfo(gen_string(r, clean), gen_string(r, clean))),
+                11 => {
+                    let tag: Vec<u8> = if r.chance(3, 4) {
+                        r.pick(&[&b"issue"[..], b"issuewild", b"iodef", b"contactemail"]).to_vec()
+                    } else {
+                        (0..r.range(1, 8)).map(|_| *r.pick(b"abcxyzABC019")).collect()
+                    };
+                    let value: Vec<u8> = if r.chance(1, 2) {
+                        r.pick(&[&b"letsencrypt.org"[..], b";", b"ca.example.net; account=230123", b"mailto:security@example.com", b"ca.example.net; validationmethods=dns-01"]).to_vec()
+                    } else {
+                        gen_string(r, clean)
+                    };
+                    ("CAA", 257, GData::Caa(*r.pick(&[0u8, 0, 0, 128, 1, 255]), tag, value))
+                }
+                _ => {
+                    let k = match r.below(8) { 0 => 3, 1 => 2, _ => 1 };
+                    ("TXT", 16, GData::Txt((0..k).map(|_| gen_string(r, clean)).collect()))
+                }
+            };
+            // a set: no two records with the same owner, type and data; one CNAME/ANAME per owner
+            let rec = GRec { owner: owner.clone(), rtype, code, class, ttl, data };
+            let key = |x: &GRec| format!("{}/{}/{}", x.owner.tok_lower(), x.code, x.data.norm());
+            let same_set = |x: &GRec| x.owner.tok_lower() == rec.owner.tok_lower() && x.code == rec.code;
+            if out.iter().any(|x| key(x) == key(&rec)) {
+                continue;
+            }
+            if out.iter().any(|x| same_set(x) && (x.ttl != rec.ttl || matches!(rec.code, 5 | 6 | 65305))) {
+                continue;
+            }
+            out.push(rec);
+        }
+    }
+    out
+}
+
+// ------------------------------------------------------------------------------------------------
+// generator: the independent master-file printer (RFC 1035 §5.1, RFC 2308 §4 for $TTL)
+
+struct Printer<'a> {
+    r: &'a mut Rng,
+    out: String,
+    origin: GName,
+    default_ttl: Option<u32>,
+    last_ttl: Option<u32>,
+    last_class: Option<u16>,
+    last_owner: Option<GName>,
+    tags: Vec<&'static str>,
+    /// a name was printed with a `\DDD` escape (the model does not cover what IDNA does with it)
+    name_ddd: bool,
+    /// avoid the layout hickory is known to mishandle (`\DDD` with DDD >= 10; and no names with
+    /// arbitrary octets): every oracle failure in such a file is a new violation
+    clean: bool,
+}
+
+fn needs_ddd(b: u8) -> bool {
+    b <= 0x20 || b >= 0x7f
+}
+
+impl<'a> Printer<'a> {
+    fn tag(&mut self, t: &'static str) {
+        if !self.tags.contains(&t) {
+            self.tags.push(t);
+        }
+    }
+
+    fn sp(&mut self) -> String {
+        match self.r.below(8) {
+            0 => "\t".into(),
+            1 => "  ".into(),
+            2 => " \t ".into(),
+            _ => " ".into(),
+        }
+    }
+
+    fn eol(&mut self) -> &'static str {
+        if self.r.chance(1, 8) { "\r\n" } else { "\n" }
+    }
+
+    fn comment(&mut self) -> String {
+        let n = self.r.below(20) as usize;
+        let noisy = self.r.chance(1, 3);
+        let body: String = (0..n)
+            .map(|_| if noisy { *self.r.pick(b"abc xyz 123 ;\"()\\$@.\t-") } else { *self.r.pick(b"abc xyz 123 .-") } as char)
+            .collect();
+        format!(";{body}")
+    }
+
+    /// RFC 1035 §5.1 label text: `\.` and friends as `\X`, octets without a graphic as `\DDD`
+    fn label_text(&mut self, l: &[u8]) -> String {
+        let mut s = String::new();
+        for &b in l {
+            if needs_ddd(b) {
+                s.push_str(&format!("\\{b:03}"));
+                self.name_ddd = true;
+            } else if b".;()\"\\@$".contains(&b) {
+                if b == b'.' {
+                    self.tag("name.escaped-dot");
+                }
+                s.push('\\');
+                s.push(b as char);
+            } else {
+                s.push(b as char);
+            }
+        }
+        s
+    }
+
+    fn name_abs(&mut self, n: &GName) -> String {
+        if n.0.is_empty() {
+            return ".".into();
+        }
+        let mut s = String::new();
+        for l in &n.0 {
+            s.push_str(&self.label_text(l));
+            s.push('.');
+        }
+        s
+    }
+
+    /// a name in RDATA or owner position: absolute, or relative to the current origin
+    fn name(&mut self, n: &GName, owner: bool) -> String {
+        let origin = self.origin.clone();
+        let under = n.ends_with(&origin) && n.0.len() > origin.0.len();
+        if owner && n.0.len() == origin.0.len() && n.ends_with(&origin) && self.r.chance(1, 2) {
+            self.tag("owner.at");
+            return "@".into();
+        }
+        if under && self.r.chance(1, 2) {
+            self.tag(if owner { "owner.relative" } else { "rdata-name.relative" });
+            let k = n.0.len() - origin.0.len();
+            let parts: Vec<String> = n.0[..k].iter().map(|l| self.label_text(l)).collect();
+            return parts.join(".");
+        }
+        self.tag(if owner { "owner.absolute" } else { "rdata-name.absolute" });
+        self.name_abs(n)
+    }
+
+    fn ttl_text(&mut self, t: u32) -> String {
+        if t > 0 && self.r.chance(1, 10) {
+            for (u, m) in [("w", 604800u32), ("d", 86400), ("h", 3600), ("m", 60)] {
+                if t % m == 0 {
+                    self.tag("ttl.unit-suffix");
+                    let u = if self.r.chance(1, 2) { u.to_uppercase() } else { u.to_string() };
+                    return format!("{}{u}", t / m);
+                }
+            }
+        }
+        t.to_string()
+    }
+
+    fn mixed_case(&mut self, s: &str) -> String {
+        match self.r.below(4) {
+            0 => s.to_lowercase(),
+            1 => s.chars().map(|c| if self.r.chance(1, 2) { c.to_ascii_lowercase() } else { c }).collect(),
+            _ => s.to_string(),
+        }
+    }
+
+    /// <character-string>: contiguous characters, or `"`-delimited with `\"`, `\\`, `\DDD`
+    fn char_string(&mut self, s: &[u8]) -> String {
+        let plain = !s.is_empty()
+            && s.iter().all(|&b| (0x21..0x7f).contains(&b) && !b"\"();\\".contains(&b))
+            && !matches!(s[0], b'@' | b'$');
+        if plain && self.r.chance(1, 2) {
+            self.tag("string.unquoted");
+            return String::from_utf8(s.to_vec()).unwrap();
+        }
+        self.tag("string.quoted");
+        let mut o = String::from("\"");
+        for &b in s {
+            if b == b'"' {
+                self.tag("string.escaped-quote");
+                o.push_str("\\\"");
+            } else if b == b'\\' {
+                self.tag("string.escaped-backslash");
+                o.push_str("\\\\");
+            } else if b >= 0x7f || (b < 0x20 && !(matches!(b, b'\t' | b'\n' | b'\r') && self.r.chance(1, 2))) {
+                self.tag("string.decimal-escape");
+                o.push_str(&format!("\\{b:03}"));
+            } else if self.r.chance(1, 60) && (0x20..0x7f).contains(&b) && !(self.clean && b.is_ascii_digit()) {
+                if !self.clean && (b.is_ascii_digit() || self.r.chance(1, 2)) {
+                    self.tag("string.decimal-escape");
+                    o.push_str(&format!("\\{b:03}"));
+                } else {
+                    self.tag("string.escaped-char");
+                    o.push('\\');
+                    o.push(b as char);
+                }
+            } else {
+                if b < 0x20 {
+                    self.tag("string.raw-control");
+                }
+                o.push(b as char);
+            }
+        }
+        o.push('"');
+        o
+    }
+
+    fn aaaa_text(&mut self, g: &[u16; 8]) -> String {
+        let full = |g: &[u16]| g.iter().map(|x| format!("{x:x}")).collect::<Vec<_>>().join(":");
+        match self.r.below(5) {
+            0 => g.iter().map(|x| format!("{x:04X}")).collect::<Vec<_>>().join(":"),
+            1 => {
+                // embedded IPv4 for the last 32 bits
+                self.tag("aaaa.embedded-v4");
+                let v4 = format!("{}.{}.{}.{}", g[6] >> 8, g[6] & 255, g[7] >> 8, g[7] & 255);
+                if g[..6].iter().all(|x| *x == 0) { format!("::{v4}") } else { format!("{}:{v4}", full(&g[..6])) }
+            }
+            2 | 3 => {
+                // compress the first run of zero groups
+                if let Some(i) = g.iter().position(|x| *x == 0) {
+                    let mut j = i;
+                    while j < 8 && g[j] == 0 {
+                        j += 1;
+                    }
+                    self.tag("aaaa.compressed");
+                    format!("{}::{}", full(&g[..i]), full(&g[j..]))
+                } else {
+                    full(g)
+                }
+            }
+            _ => full(g),
+        }
+    }
+
+    fn rdata_fields(&mut self, d: &GData) -> Vec<String> {
+        match d {
+            GData::A(o) => vec![format!("{}.{}.{}.{}", o[0], o[1], o[2], o[3])],
+            GData::Aaaa(g) => vec![self.aaaa_text(g)],
+            GData::N(n) => vec![self.name(n, false)],
+            GData::Mx(p, n) => vec![p.to_string(), self.name(n, false)],
+            GData::Soa(m, rn, a, b, c, d, e) => vec![
+                self.name(m, false),
+                self.name(rn, false),
+                a.to_string(),
+                b.to_string(),
+                c.to_string(),
+                d.to_string(),
+                e.to_string(),
+            ],
+            GData::Srv(p, w, q, n) => vec![p.to_string(), w.to_string(), q.to_string(), self.name(n, false)],
+            GData::Txt(ss) => ss.iter().map(|s| self.char_string(s)).collect(),
+            GData::Hinfo(c, o) => vec![self.char_string(c), self.char_string(o)],
+            GData::Caa(f, t, v) => vec![f.to_string(), String::from_utf8(t.clone()).unwrap(), self.char_string(v)],
+        }
+    }
+
+    fn filler(&mut self) {
+        for _ in 0..self.r.below(3) {
+            match self.r.below(4) {
+                0 => {
+                    self.tag("line.blank");
+                    let e = self.eol();
+                    self.out.push_str(e);
+                }
+                1 => {
+                    self.tag("line.whitespace-only");
+                    let s = self.sp();
+                    let e = self.eol();
+                    self.out.push_str(&format!("{s}{e}"));
+                }
+                2 => {
+                    self.tag("line.comment-only");
+                    let c = self.comment();
+                    let e = self.eol();
+                    self.out.push_str(&format!("{c}{e}"));
+                }
+                _ => {
+                    self.tag("line.indented-comment");
+                    let s = self.sp();
+                    let c = self.comment();
+                    let e = self.eol();
+                    self.out.push_str(&format!("{s}{c}{e}"));
+                }
+            }
+        }
+    }
+
+    fn directive_origin(&mut self, o: &GName) {
+        self.tag("$ORIGIN");
+        let s = self.sp();
+        let n = self.name_abs(o);
+        let tail = if self.r.chance(1, 4) { format!("{}{}", self.sp(), self.comment()) } else { String::new() };
+        let e = self.eol();
+        self.out.push_str(&format!("$ORIGIN{s}{n}{tail}{e}"));
+        self.origin = o.clone();
+    }
+
+    fn directive_ttl(&mut self, t: u32) {
+        self.tag("$TTL");
+        let s = self.sp();
+        let tt = self.ttl_text(t);
+        let tail = if self.r.chance(1, 4) { format!("{}{}", self.sp(), self.comment()) } else { String::new() };
+        let e = self.eol();
+        self.out.push_str(&format!("$TTL{s}{tt}{tail}{e}"));
+        self.default_ttl = Some(t);
+    }
+
+    fn record(&mut self, rec: &GRec, last: bool) {
+        // owner: inherited from the previous line, `@`, relative, absolute
+        let inherit = self.last_owner.as_ref() == Some(&rec.owner) && self.r.chance(2, 3);
+        let mut line = if inherit {
+            self.tag("owner.inherited");
+            self.sp()
+        } else {
+            let n = self.name(&rec.owner, true);
+            format!("{n}{}", self.sp())
+        };
+        self.last_owner = Some(rec.owner.clone());
+        // TTL: explicit, or inherited from $TTL (RFC 2308) / from the last explicit TTL (RFC 1035)
+        let inherited_ttl = match self.default_ttl {
+            Some(d) => Some(d),
+            None => self.last_ttl,
+        };
+        let ttl = if inherited_ttl == Some(rec.ttl) && self.r.chance(2, 3) {
+            self.tag(if self.default_ttl.is_some() { "ttl.from-$TTL" } else { "ttl.from-previous" });
+            None
+        } else {
+            self.tag("ttl.explicit");
+            self.last_ttl = Some(rec.ttl);
+            Some(self.ttl_text(rec.ttl))
+        };
+        let inherited_class = self.last_class.unwrap_or(1);
+        let class = if inherited_class == rec.class && self.r.chance(1, 2) {
+            self.tag("class.inherited");
+            None
+        } else {
+            self.tag("class.explicit");
+            self.last_class = Some(rec.class);
+            let c = match rec.class {
+                1 => "IN",
+                3 => "CH",
+                _ => "HS",
+            };
+            Some(self.mixed_case(c))
+        };
+        let mut pre = vec![];
+        if self.r.chance(1, 3) {
+            if ttl.is_some() && class.is_some() {
+                self.tag("order.class-ttl");
+            }
+            pre.extend(class);
+            pre.extend(ttl);
+        } else {
+            pre.extend(ttl);
+            pre.extend(class);
+        }
+        for p in pre {
+            line.push_str(&p);
+            line.push_str(&self.sp());
+        }
+        line.push_str(&self.mixed_case(rec.rtype));
+        // RDATA, optionally with a parenthesised group spanning lines
+        let fields = self.rdata_fields(&rec.data);
+        let paren = self.r.chance(1, 4);
+        let (i, j) = if paren {
+            let i = self.r.below(fields.len() as u64 + 1) as usize;
+            let j = self.r.range(i as u64, fields.len() as u64) as usize;
+            self.tag("parens");
+            if fields[i..j].iter().any(|f| f.starts_with('"')) {
+                self.tag("parens.quoted-item");
+            }
+            (i, j)
+        } else {
+            (usize::MAX, usize::MAX)
+        };
+        let mut inside = false;
+        for (k, f) in fields.iter().enumerate() {
+            if k == i {
+                line.push_str(&self.sp());
+                line.push('(');
+                inside = true;
+            }
+            if k == j && inside {
+                line.push_str(&self.gap(true));
+                line.push(')');
+                inside = false;
+            }
+            line.push_str(&self.gap(inside));
+            line.push_str(f);
+        }
+        if i == fields.len() {
+            line.push_str(&self.sp());
+            line.push('(');
+            inside = true;
+        }
+        if inside {
+            line.push_str(&self.gap(true));
+            line.push(')');
+        }
+        if self.r.chance(1, 5) {
+            self.tag("comment.end-of-line");
+            let s = self.sp();
+            let c = self.comment();
+            line.push_str(&format!("{s}{c}"));
+        } else if self.r.chance(1, 8) {
+            line.push_str(&self.sp());
+        }
+        if last && self.r.chance(1, 4) {
+            self.tag("no-final-newline");
+        } else {
+            line.push_str(self.eol());
+        }
+        self.out.push_str(&line);
+    }
+
+    /// separator between RDATA items; inside parentheses it may cross line boundaries
+    fn gap(&mut self, inside: bool) -> String {
+        if inside && self.r.chance(1, 2) {
+            self.tag("parens.multi-line");
+            let mut s = String::new();
+            if self.r.chance(1, 3) {
+                self.tag("parens.comment-inside");
+                s.push_str(&self.sp());
+                s.push_str(&self.comment());
+            }
+            s.push_str(self.eol());
+            s.push_str(&self.sp());
+            s
+        } else {
+            self.sp()
+        }
+    }
+}
+
+/// prints `recs` as a zone file; returns (text, final origin, tags, a name needed a `\DDD` escape)
+fn render(r: &mut Rng, origin: &GName, recs: &[GRec], clean: bool) -> (String, GName, Vec<&'static str>, bool) {
+    let mut p = Printer {
+        r,
+        out: String::new(),
+        origin: origin.clone(),
+        default_ttl: None,
+        last_ttl: None,
+        last_class: None,
+        last_owner: None,
+        tags: vec![],
+        name_ddd: false,
+        clean,
+    };
+    p.filler();
+    if p.r.chance(1, 4) {
+        p.directive_origin(&origin.clone());
+    }
+    if p.r.chance(1, 3) {
+        let t = if !recs.is_empty() && p.r.chance(2, 3) { recs[0].ttl } else { gen_ttl(p.r) };
+        p.directive_ttl(t);
+    }
+    for (k, rec) in recs.iter().enumerate() {
+        p.filler();
+        if p.r.chance(1, 10) {
+            // move the origin: up, down, or elsewhere
+            let o = match p.r.below(3) {
+                0 if !p.origin.0.is_empty() => GName(p.origin.0[1..].to_vec()),
+                1 => gen_name_under(p.r, &rec.owner.clone(), false),
+                _ => gen_abs_name(p.r, false),
+            };
+            p.directive_origin(&o);
+        }
+        if p.r.chance(1, 10) {
+            let t = if p.r.chance(2, 3) { rec.ttl } else { gen_ttl(p.r) };
+            p.directive_ttl(t);
+        }
+        p.record(rec, k + 1 == recs.len());
+    }
+    if p.out.ends_with('\n') {
+        p.filler();
+    }
+    (p.out, p.origin, p.tags, p.name_ddd)
+}
+
+// ------------------------------------------------------------------------------------------------
+// generator: malformed stream
+
+fn mutate(r: &mut Rng, text: &str) -> String {
+    let mut s: Vec<char> = text.chars().collect();
+    let special: Vec<char> = "\"();\\$@\n\r\t .0123456789-*_:\u{0}\u{1}\u{b}\u{c}\u{1f}\u{7f}".chars().collect();
+    for _ in 0..r.range(1, 3) {
+        let pos = |r: &mut Rng, n: usize| r.below(n as u64 + 1) as usize;
+        match r.below(12) {
+            0 | 1 => {
+                if !s.is_empty() {
+                    let i = r.below(s.len() as u64) as usize;
+                    s[i] = *r.pick(&special);
+                }
+            }
+            2 | 3 => {
+                let i = pos(r, s.len());
+                s.insert(i, *r.pick(&special));
+            }
+            4 => {
+                if !s.is_empty() {
+                    let i = r.below(s.len() as u64) as usize;
+                    s.remove(i);
+                }
+            }
+            5 => {
+                let i = pos(r, s.len());
+                s.truncate(i);
+            }
+            6 => {
+                // unbalanced parenthesis / quote
+                let i = pos(r, s.len());
+                s.insert(i, *r.pick(&['(', ')', '"']));
+            }
+            7 => {
+                // duplicate a segment
+                if !s.is_empty() {
+                    let i = r.below(s.len() as u64) as usize;
+                    let j = (i + r.range(1, 30) as usize).min(s.len());
+                    let seg: Vec<char> = s[i..j].to_vec();
+                    let k = pos(r, s.len());
+                    for (o, c) in seg.into_iter().enumerate() {
+                        s.insert(k + o, c);
+                    }
+                }
+            }
+            8 => {
+                // a huge token / blank run / comment / list
+                let n = *r.pick(&[300usize, 4094, 4095, 4096, 5000]);
+                let i = pos(r, s.len());
+                let run: Vec<char> = match r.below(5) {
+                    0 => vec!['a'; n],
+                    1 => vec![' '; n],
+                    2 => std::iter::once(';').chain(std::iter::repeat('c').take(n)).collect(),
+                    3 => std::iter::once('(').chain(" x".chars().cycle().take(n)).chain(std::iter::once(')')).collect(),
+                    _ => std::iter::once('"').chain(std::iter::repeat('q').take(n)).chain(std::iter::once('"')).collect(),
+                };
+                for (o, c) in run.into_iter().enumerate() {
+                    s.insert(i + o, c);
+                }
+            }
+            9 => {
+                // non-ASCII (no model side)
+                let i = pos(r, s.len());
+                s.insert(i, *r.pick(&['é', '\u{a0}', '\u{85}', '٣', '½', '\u{2028}', '漢', '\u{1F600}']));
+            }
+            10 => {
+                // swap a keyword
+                let words = ["$ORIGIN", "$TTL", "$INCLUDE", "$FOO", "IN", "ANY", "NONE", "TYPE1", "NSEC", "NULL", "@", "1w2d", "4294967296", "99999999999999999999", "+5", "1.2.3.4", "::1", "1.2.3.04", "256.1.1.1", "1:2:3:4:5:6:7:8:9", "::ffff:1.2.3.4", "1::2::3"];
+                let w: Vec<char> = r.pick(&words).chars().collect();
+                let i = pos(r, s.len());
+                s.insert(i, ' ');
+                for (o, c) in w.into_iter().enumerate() {
+                    s.insert(i + 1 + o, c);
+                }
+            }
+            _ => {
+                // replace a digit / letter by a neighbour
+                if !s.is_empty() {
+                    let i = r.below(s.len() as u64) as usize;
+                    if s[i].is_ascii_alphanumeric() {
+                        s[i] = *r.pick(&['0', '9', 'a', 'Z', '7', 'w', 'h']);
+                    }
+                }
+            }
+        }
+    }
+    s.into_iter().collect()
+}
+
+fn garbage(r: &mut Rng) -> String {
+    let n = r.below(120) as usize;
+    let alphabet: Vec<char> = "ab1.@$;()\"\\ \t\n\rINTXTAMX 0123456789:-_*\u{7f}\u{1}".chars().collect();
+    (0..n).map(|_| *r.pick(&alphabet)).collect()
+}
+
+/// fragments of valid syntax glued in random order
+fn token_soup(r: &mut Rng) -> String {
+    let toks = [
+        "www", "@", " ", "\t", "\n", "\r\n", "3600", "1h", "IN", "CH", "A", "AAAA", "TXT", "MX", "SOA", "NS", "CNAME", "SRV", "PTR",
+        "1.2.3.4", "::1", "10", "mail.example.com.", "ns", "(", ")", ";c", "\"q s\"", "\"", "$TTL", "$ORIGIN", "$INCLUDE", "x.", ".",
+        "\\.", "\\065", "a\\.b", "*", "_sip._tcp", "-a", "a_b", "ANY", "NONE", "NULL", "0", "4294967295", "4294967296", "2147483648",
+    ];
+    let n = r.range(1, 25);
+    let mut s = String::new();
+    for _ in 0..n {
+        let w: &&str = r.pick(&toks[..]);
+        s.push_str(w);
+        if r.chance(2, 3) {
+            s.push(' ');
+        }
+    }
+    s
+}
+
+/// the same few owners / types / data again and again with varying TTL, class and letter case:
+/// exercises the replace / ignore / refuse rules of `RecordSet::insert` (no expectation)
+fn rrset_edits(r: &mut Rng) -> String {
+    let owners = ["a", "A", "b", "@", ""];
+    let datas = [
+        ("A", "1.1.1.1"), ("A", "2.2.2.2"), ("a", "1.1.1.1"), ("CNAME", "x"), ("CNAME", "X"), ("cname", "y"), ("ANAME", "x"),
+        ("NS", "n"), ("NS", "N"), ("TXT", "t"), ("TXT", "\"t\""), ("MX", "1 m"), ("MX", "1 M"), ("MX", "2 m"),
+        ("SOA", "a b 1 2 3 4 5"), ("SOA", "a b 2 2 3 4 5"),
+    ];
+    let mut s = String::new();
+    for _ in 0..r.range(2, 7) {
+        let (t, d) = *r.pick(&datas);
+        let o = *r.pick(&owners);
+        let ttl = *r.pick(&["60", "60", "70", ""]);
+        let cls = *r.pick(&["", "", "IN", "CH"]);
+        s.push_str(&format!("{o} {ttl} {cls} {t} {d}\n"));
+    }
+    s
+}
+
+fn case_line(flag: &str, origin: &GName, text: &str, exp: Option<(&GName, &[GRec])>) -> String {
+    let mut l = format!("zone {flag} {} {}", origin.tok(), hex(text.as_bytes()));
+    if let Some((o, recs)) = exp {
+        let e = if recs.is_empty() { "0".to_string() } else { recs.iter().map(GRec::norm).collect::<Vec<_>>().join("|") };
+        l.push_str(&format!(" {} {e}", o.tok_lower()));
+    }
+    l
+}
+
+fn adversarial() -> Vec<String> {
+    // regression cases of the repaired iteration cap are in corpus/C20; these are built
+    // programmatically because of their size
+    let o = GName(vec![b"example".to_vec(), b"com".to_vec()]);
+    let mut v = vec![];
+    for n in [4094usize, 4095, 4096, 10000] {
+        for (name, text) in [
+            ("comment", format!("; {}\nwww 60 IN A 1.2.3.4\n", "c".repeat(n))),
+            ("blank", format!("www 60 IN A{}1.2.3.4\n", " ".repeat(n))),
+            ("quoted", format!("www 60 IN TXT \"{}\"\n", "q".repeat(n))),
+            ("list", format!("www 60 IN TXT ({})\n", " x".repeat(n / 2))),
+            ("token", format!("www 60 IN TXT {}\n", "t".repeat(n))),
+            ("crs", format!("www 60 IN A 1.2.3.4{}\n", "\r".repeat(n))),
+        ] {
+            let _ = name;
+            v.push(case_line("m", &o, &text, None));
+        }
+    }
+    v
+}
+
+pub fn run(o: &Opts, rec: &mut Recorder) {
+    rec.rule = "zone texts: (a) random record sets of A/AAAA/NS/CNAME/PTR/ANAME/MX/SOA/SRV/TXT/HINFO/CAA printed by an independent RFC 1035 §5 printer with per-line random layout, (b) mutations of those, (c) token soup, repeated RRset edits and garbage; a case is non-trivial when the text loaded to >= 1 record or is a malformed-stream text of >= 10 characters; distinct by case line".into();
+    for l in o.pre_lines.clone() {
+        exec(&l, rec);
+    }
+    rec.corpus_cases = rec.cases.len();
+    if o.replay_only {
+        return;
+    }
+    for l in adversarial() {
+        exec(&l, rec);
+    }
+    let mut r = Rng::new(o.seed);
+    let n = o.n(3000, 120_000);
+    for i in 0..n {
+        let origin = {
+            let k = r.range(1, 3);
+            GName((0..k).map(|_| gen_ldh_label(&mut r)).collect())
+        };
+        // 1 file in 25 contains names with arbitrary octets (not loadable: known finding)
+        let clean = r.chance(7, 10);
+        let wild = !clean && r.chance(1, 8);
+        let recs = gen_records(&mut r, &origin, wild, clean);
+        let (text, final_origin, tags, name_ddd) = render(&mut r, &origin, &recs, clean);
+        match i % 10 {
+            0..=5 => {
+                rec.stat(if clean { "stream.rendered-clean" } else { "stream.rendered-any" });
+                for t in &tags {
+                    rec.stat(&format!("layout.{t}"));
+                }
+                for x in &recs {
+                    rec.stat(&format!("rtype.{}", x.rtype));
+                }
+                let flag = if name_ddd { "i" } else { "e" };
+                exec(&case_line(flag, &origin, &text, Some((&final_origin, &recs))), rec);
+            }
+            6 | 7 => {
+                rec.stat("stream.mutated");
+                let m = mutate(&mut r, &text);
+                let with_origin = !r.chance(1, 10);
+                let mut l = case_line("m", &origin, &m, None);
+                if !with_origin {
+                    l = l.replacen(&origin.tok(), "-", 1);
+                }
+                exec(&l, rec);
+            }
+            8 => {
+                rec.stat("stream.token-soup");
+                exec(&case_line("m", &origin, &token_soup(&mut r), None), rec);
+            }
+            _ if r.chance(1, 2) => {
+                rec.stat("stream.rrset-edits");
+                exec(&case_line("m", &origin, &rrset_edits(&mut r), None), rec);
+            }
+            _ => {
+                rec.stat("stream.garbage");
+                exec(&case_line("m", &origin, &garbage(&mut r), None), rec);
+            }
+        }
+    }
 }
